@@ -6,28 +6,156 @@ record of live listens / live resource subscriptions agree with each other.
 namespace Notify
 open Generated.Notify
 
+/-! ### `find?` / `heir` helpers -/
+
+theorem find?_congr' {α} {l : List α} {p q : α → Bool} (h : ∀ a ∈ l, p a = q a) :
+    l.find? p = l.find? q := by
+  induction l with
+  | nil => rfl
+  | cons a t ih =>
+    simp only [List.find?_cons]
+    rw [h a (by simp)]
+    split
+    · rfl
+    · exact ih (fun x hx => h x (by simp [hx]))
+
+/-- Filtering keeps the first match if the match itself is kept. -/
+theorem find?_filter_keep {α} {l : List α} {p q : α → Bool} {b : α} (h : l.find? p = some b)
+    (hq : q b = true) : (l.filter q).find? p = some b := by
+  induction l with
+  | nil => simp at h
+  | cons a t ih =>
+    simp only [List.find?_cons] at h
+    cases hp : p a with
+    | true =>
+      rw [hp] at h; simp at h; subst h
+      simp [List.filter, hq, hp]
+    | false =>
+      rw [hp] at h; simp only [] at h
+      cases hqa : q a with
+      | true => simp only [List.filter, hqa, List.find?_cons, hp]; exact ih h
+      | false => simp only [List.filter, hqa]; exact ih h
+
+/-- The first match of a filtered list is the first match of the list, unless that one was dropped. -/
+theorem find?_filter_sub {α} {l : List α} {p q : α → Bool} {b : α} (h : (l.filter q).find? p = some b) :
+    ∃ b0, l.find? p = some b0 ∧ (q b0 = true → b0 = b) := by
+  induction l with
+  | nil => simp at h
+  | cons a t ih =>
+    cases hqa : q a with
+    | true =>
+      simp only [List.filter, hqa, List.find?_cons] at h ⊢
+      cases hp : p a with
+      | true => rw [hp] at h; simp at h; exact ⟨a, rfl, fun _ => h⟩
+      | false => rw [hp] at h; simp only [] at h; exact ih h
+    | false =>
+      simp only [List.filter, hqa] at h
+      obtain ⟨b0, h0, h1⟩ := ih h
+      simp only [List.find?_cons]
+      cases hp : p a with
+      | true => exact ⟨a, rfl, fun hq => by rw [hqa] at hq; cases hq⟩
+      | false => exact ⟨b0, h0, h1⟩
+
+theorem find?_filter_props {α} {l : List α} {p q : α → Bool} {b : α} (h : (l.filter q).find? p = some b) :
+    b ∈ l ∧ q b = true ∧ p b = true := by
+  have h1 := List.mem_of_find?_eq_some h
+  have h2 := List.find?_some h
+  rw [List.mem_filter] at h1
+  exact ⟨h1.1, h1.2, h2⟩
+
+theorem find?_isSome_of_mem {α} {l : List α} {p : α → Bool} {b : α} (hb : b ∈ l) (hp : p b = true) :
+    ∃ b0, l.find? p = some b0 := by
+  cases h : l.find? p with
+  | some b0 => exact ⟨b0, rfl⟩
+  | none => rw [List.find?_eq_none] at h; exact absurd hp (h b hb)
+
+theorem grantsK_iff (t : Kind) (l : Listen) : grantsK t l = true ↔ t ∈ l.kinds := by
+  simp [grantsK, listenTable_diag]
+
+theorem grantsU_iff (u : Nat) (l : Listen) : grantsU u l = true ↔ u ∈ l.uris := by
+  simp [grantsU]
+
+theorem heir_some {ls : List Listen} {sid : Nat} {g : Listen → Bool} {h : Nat} :
+    heir ls sid g = some h ↔ ∃ l, ls.find? (fun l => l.sid == sid && g l) = some l ∧ l.id = h := by
+  simp [heir]
+
+/-- What an heir is: an open stream of the session that was granted the thing. -/
+theorem heir_mem {ls : List Listen} {sid : Nat} {g : Listen → Bool} {h : Nat} (hh : heir ls sid g = some h) :
+    ∃ l ∈ ls, l.sid = sid ∧ l.id = h ∧ g l = true := by
+  obtain ⟨l, hf, hid⟩ := heir_some.1 hh
+  have h1 := List.mem_of_find?_eq_some hf
+  have h2 := List.find?_some hf
+  simp at h2
+  exact ⟨l, h1, h2.1, hid, h2.2⟩
+
+/-- A session with an open stream that was granted the thing has an heir. -/
+theorem heir_of_mem {ls : List Listen} {sid : Nat} {g : Listen → Bool} {l : Listen} (hl : l ∈ ls)
+    (hs : l.sid = sid) (hg : g l = true) : ∃ h, heir ls sid g = some h := by
+  obtain ⟨b0, hb0⟩ := find?_isSome_of_mem (p := fun l => l.sid == sid && g l) hl (by simp [hs, hg])
+  exact ⟨b0.id, heir_some.2 ⟨b0, hb0, rfl⟩⟩
+
+theorem heir_cons (n : Listen) (ls : List Listen) (sid : Nat) (g : Listen → Bool) :
+    heir (n :: ls) sid g = if n.sid = sid ∧ g n = true then some n.id else heir ls sid g := by
+  simp only [heir, List.find?_cons]
+  by_cases h : n.sid = sid ∧ g n = true
+  · simp [h]
+  · have : (n.sid == sid && g n) = false := by
+      cases hg : g n <;> simp_all
+    simp [this, h]
+
+/-- Dropping streams of ANOTHER session changes no heir of this one. -/
+theorem heir_filter_other {ls : List Listen} {sid' : Nat} {g : Listen → Bool} {q : Listen → Bool}
+    (hq : ∀ l ∈ ls, l.sid = sid' → q l = true) : heir (ls.filter q) sid' g = heir ls sid' g := by
+  simp only [heir, List.find?_filter]
+  congr 1
+  apply find?_congr'
+  intro a ha
+  by_cases e : a.sid = sid'
+  · simp [hq a ha e, e]
+  · simp [e]
+
 structure InvS (s : Server) : Prop where
   sess_nodup : (s.sessions.map Prod.fst).Nodup
-  subs_listen : ∀ t, ∀ p ∈ (s.ks t).subs, ∃ l ∈ s.listens, l.sid = p.1 ∧ l.id = p.2 ∧ t ∈ l.kinds
   listen_modern : ∀ l ∈ s.listens, (l.sid, Gen.modern) ∈ s.sessions
-  listen_subs : ∀ l ∈ s.listens, ∀ k ∈ l.kinds, (l.sid, l.id) ∈ (s.ks k).subs
-  listen_rsubs : ∀ l ∈ s.listens, ∀ u ∈ l.uris, (u, l.sid, l.id) ∈ s.rsubs
-  listen_uniq : ∀ l ∈ s.listens, ∀ l' ∈ s.listens, l.sid = l'.sid →
-    (l.id = l'.id ∨ (∃ k, k ∈ l.kinds ∧ k ∈ l'.kinds) ∨ (∃ u, u ∈ l.uris ∧ u ∈ l'.uris)) → l = l'
+  /-- the request ids of the open streams of one session are distinct -/
+  listen_ids : ∀ l ∈ s.listens, ∀ l' ∈ s.listens, l.sid = l'.sid → l.id = l'.id → l = l'
+  /-- a list-changed table holds, per session, exactly the id of the newest open stream of the session
+  that was granted the kind -/
+  subs_iff : ∀ t sid id, (sid, id) ∈ (s.ks t).subs ↔ heir s.listens sid (grantsK t) = some id
   rsubs_owner : ∀ r ∈ s.rsubs, (r.2.1, Gen.legacy) ∈ s.sessions ∨
-    ((r.2.1, Gen.modern) ∈ s.sessions ∧ ∃ l ∈ s.listens, l.sid = r.2.1 ∧ l.id = r.2.2 ∧ r.1 ∈ l.uris)
+    ((r.2.1, Gen.modern) ∈ s.sessions ∧ heir s.listens r.2.1 (grantsU r.1) = some r.2.2)
+  /-- … and so does `resourceSubscriptions[u]` for a 2026-07-28 session -/
+  listen_rsubs : ∀ u sid id, heir s.listens sid (grantsU u) = some id → (u, sid, id) ∈ s.rsubs
   rsubs_fun : ∀ r ∈ s.rsubs, ∀ q ∈ s.rsubs, r.1 = q.1 → r.2.1 = q.2.1 → r = q
   rsubs_nodup : s.rsubs.Nodup
-  rlive_iff : ∀ sid u, (sid, u) ∈ s.rlive ↔ ∃ id, (u, sid, id) ∈ s.rsubs
+  rlive_iff : ∀ sid u, (sid, u) ∈ s.rlive ↔ ((sid, Gen.legacy) ∈ s.sessions ∧ ∃ id, (u, sid, id) ∈ s.rsubs)
 
 theorem invS_init (cap : Kind → Cap) : InvS (init cap) := by
-  constructor <;> simp [init]
+  constructor <;> simp [init, heir]
+
+/-- Every table entry names an open stream of its session that was granted the kind. -/
+theorem InvS.subs_listen {s : Server} (h : InvS s) (t : Kind) (p : Nat × Nat) (hp : p ∈ (s.ks t).subs) :
+    ∃ l ∈ s.listens, l.sid = p.1 ∧ l.id = p.2 ∧ t ∈ l.kinds := by
+  obtain ⟨l, hl, h1, h2, h3⟩ := heir_mem ((h.subs_iff t p.1 p.2).1 hp)
+  exact ⟨l, hl, h1, h2, (grantsK_iff t l).1 h3⟩
+
+/-- The session of every open stream is in every table the stream was granted, under the id of the
+newest open stream of that session that was granted the same kind. -/
+theorem InvS.listen_served {s : Server} (h : InvS s) (l : Listen) (hl : l ∈ s.listens) (k : Kind)
+    (hk : k ∈ l.kinds) : ∃ id, heir s.listens l.sid (grantsK k) = some id ∧ (l.sid, id) ∈ (s.ks k).subs := by
+  obtain ⟨id, hid⟩ := heir_of_mem (g := grantsK k) hl rfl ((grantsK_iff k l).2 hk)
+  exact ⟨id, hid, (h.subs_iff k l.sid id).2 hid⟩
+
+theorem InvS.listen_served_uri {s : Server} (h : InvS s) (l : Listen) (hl : l ∈ s.listens) (u : Nat)
+    (hu : u ∈ l.uris) : ∃ id, heir s.listens l.sid (grantsU u) = some id ∧ (u, l.sid, id) ∈ s.rsubs := by
+  obtain ⟨id, hid⟩ := heir_of_mem (g := grantsU u) hl rfl ((grantsU_iff u l).2 hu)
+  exact ⟨id, hid, h.listen_rsubs u l.sid id hid⟩
 
 /-- Frame: labels that touch neither sessions nor subscription state. -/
 theorem InvS.frame {s s' : Server} (h : InvS s) (h1 : s'.sessions = s.sessions)
     (h2 : ∀ t, (s'.ks t).subs = (s.ks t).subs) (h3 : s'.rsubs = s.rsubs)
     (h4 : s'.listens = s.listens) (h5 : s'.rlive = s.rlive) : InvS s' := by
-  obtain ⟨a, b, c, d, e, f, g, i, j, k⟩ := h
+  obtain ⟨a, b, c, d, e, f, g, i, j⟩ := h
   constructor
   all_goals simp only [h1, h2, h3, h4, h5]
   all_goals assumption
@@ -51,17 +179,18 @@ theorem invS_bind (s : Server) (sid : Nat) (h : InvS s) : InvS (bind s sid) := b
   split
   · exact h
   · rename_i hn
-    obtain ⟨a, b, c, d, e, f, g, i, j, k⟩ := h
-    refine ⟨?_, b, ?_, d, e, f, ?_, i, j, k⟩
+    obtain ⟨a, b, c, d, e, f, g, i, j⟩ := h
+    refine ⟨?_, ?_, c, d, ?_, f, g, i, ?_⟩
     · simp only [List.map_append, List.map_cons, List.map_nil]
       rw [List.nodup_append]
       refine ⟨a, by simp, ?_⟩
       intro x hx y hy; simp at hy; subst hy; intro e; subst e; exact hn hx
-    · intro l hl; simp; exact c l hl
+    · intro l hl; simp; exact b l hl
     · intro r hr
-      rcases g r hr with g | g
-      · left; simp; exact g
-      · right; refine ⟨by simp; exact g.1, g.2⟩
+      rcases e r hr with e | e
+      · left; simp; exact e
+      · right; refine ⟨by simp; exact e.1, e.2⟩
+    · intro sid' u; simp; exact j sid' u
 
 theorem hello_keep {l : List (Nat × Gen)} {sid x : Nat} {g ng : Gen} (h : (x, g) ∈ l) (hne : x ≠ sid) :
     (x, g) ∈ l.map (fun p => if p.1 = sid then (sid, ng) else p) := by
@@ -72,59 +201,75 @@ theorem invS_hello (s : Server) (sid : Nat) (m : Bool) (h : InvS s) : InvS (hell
   unfold hello
   split
   · rename_i hu
-    obtain ⟨a, b, c, d, e, f, g, i, j, k⟩ := h
+    obtain ⟨a, b, c, d, e, f, g, i, j⟩ := h
     have keep : ∀ x gg, gg ≠ Gen.uninit → (x, gg) ∈ s.sessions →
         (x, gg) ∈ s.sessions.map (fun p => if p.1 = sid then (sid, if m then Gen.modern else Gen.legacy) else p) := by
       intro x gg hg hx
       apply hello_keep hx
       intro e; subst e; exact hg (gen_unique a hx hu)
-    refine ⟨?_, b, ?_, d, e, f, ?_, i, j, k⟩
-    · simp only [map_fst_hello]; exact a
-    · intro l hl; exact keep _ _ (by simp) (c l hl)
+    have a' : ((s.sessions.map (fun p => if p.1 = sid then (sid, if m then Gen.modern else Gen.legacy) else p)).map Prod.fst).Nodup := by
+      simp only [map_fst_hello]; exact a
+    refine ⟨a', ?_, c, d, ?_, f, g, i, ?_⟩
+    · intro l hl; exact keep _ _ (by simp) (b l hl)
     · intro r hr
-      rcases g r hr with g | g
-      · left; exact keep _ _ (by simp) g
-      · right; exact ⟨keep _ _ (by simp) g.1, g.2⟩
+      rcases e r hr with e | e
+      · left; exact keep _ _ (by simp) e
+      · right; exact ⟨keep _ _ (by simp) e.1, e.2⟩
+    · intro sid' u
+      constructor
+      · intro hr
+        obtain ⟨h1, h2⟩ := (j sid' u).1 hr
+        exact ⟨keep _ _ (by simp) h1, h2⟩
+      · rintro ⟨h1, id, h2⟩
+        apply (j sid' u).2
+        refine ⟨?_, id, h2⟩
+        rcases e _ h2 with e | e
+        · exact e
+        · have := gen_unique a' h1 (keep _ _ (by simp) e.1)
+          cases this
   · exact h
 
 theorem invS_subscribe (s : Server) (sid id u : Nat) (h : InvS s) : InvS (subscribe s sid id u) := by
   unfold subscribe
   split
   · rename_i hl
-    obtain ⟨a, b, c, d, e, f, g, i, j, k⟩ := h
-    refine ⟨a, b, c, d, ?_, f, ?_, ?_, ?_, ?_⟩
-    · intro l hl' x hx
-      have h1 := e l hl' x hx
-      have h2 := c l hl'
-      have hne : l.sid ≠ sid := by
-        intro e; rw [e] at h2; exact absurd (gen_unique a h2 hl) (by simp)
-      simp; left; exact ⟨h1, Or.inr hne⟩
+    obtain ⟨a, b, c, d, e, f, g, i, j⟩ := h
+    refine ⟨a, b, c, d, ?_, ?_, ?_, ?_, ?_⟩
     · intro r hr
       simp at hr
       rcases hr with hr | hr
-      · exact g r hr.1
+      · exact e r hr.1
       · subst hr; left; exact hl
+    · intro u' sid' id' hh
+      have h1 := f u' sid' id' hh
+      obtain ⟨l, hl', hs, _, _⟩ := heir_mem hh
+      have h2 := b l hl'
+      have hne : sid' ≠ sid := by
+        intro e; rw [hs, e] at h2; exact absurd (gen_unique a h2 hl) (by simp)
+      simp; left; exact ⟨h1, Or.inr hne⟩
     · intro r hr q hq h1 h2
       simp at hr hq
       rcases hr with hr | hr <;> rcases hq with hq | hq
-      · exact i r hr.1 q hq.1 h1 h2
+      · exact g r hr.1 q hq.1 h1 h2
       · subst hq; simp at h1 h2; grind
       · subst hr; simp at h1 h2; grind
       · rw [hr, hq]
     · rw [List.nodup_append]
-      refine ⟨j.filter _, by simp, ?_⟩
+      refine ⟨i.filter _, by simp, ?_⟩
       intro x hx y hy; simp at hx hy; subst hy; intro e; subst e; simp at hx
     · intro sid' u'
+      have := j sid' u'
       simp
       constructor
       · rintro (h1 | ⟨rfl, rfl⟩)
-        · obtain ⟨id', hid⟩ := (k sid' u').1 h1
+        · obtain ⟨hleg, id', hid⟩ := this.1 h1
+          refine ⟨hleg, ?_⟩
           by_cases e : u' = u ∧ sid' = sid
           · exact ⟨id, Or.inr ⟨e.1, e.2, rfl⟩⟩
           · exact ⟨id', Or.inl ⟨hid, by grind⟩⟩
-        · exact ⟨id, Or.inr ⟨rfl, rfl, rfl⟩⟩
-      · rintro ⟨id', (h1 | ⟨rfl, rfl, rfl⟩)⟩
-        · left; exact (k sid' u').2 ⟨id', h1.1⟩
+        · exact ⟨hl, id, Or.inr ⟨rfl, rfl, rfl⟩⟩
+      · rintro ⟨hleg, id', (h1 | ⟨rfl, rfl, rfl⟩)⟩
+        · left; exact this.2 ⟨hleg, id', h1.1⟩
         · right; exact ⟨rfl, rfl⟩
   · exact h
 
@@ -132,50 +277,68 @@ theorem invS_unsubscribe (s : Server) (sid u : Nat) (h : InvS s) : InvS (unsubsc
   unfold unsubscribe
   split
   · rename_i hl
-    obtain ⟨a, b, c, d, e, f, g, i, j, k⟩ := h
-    refine ⟨a, b, c, d, ?_, f, ?_, ?_, j.filter _, ?_⟩
-    · intro l hl' x hx
-      have h1 := e l hl' x hx
-      have h2 := c l hl'
-      have hne : l.sid ≠ sid := by
-        intro e; rw [e] at h2; exact absurd (gen_unique a h2 hl) (by simp)
-      simp; exact ⟨h1, Or.inr hne⟩
+    obtain ⟨a, b, c, d, e, f, g, i, j⟩ := h
+    refine ⟨a, b, c, d, ?_, ?_, ?_, i.filter _, ?_⟩
     · intro r hr
       simp at hr
-      exact g r hr.1
+      exact e r hr.1
+    · intro u' sid' id' hh
+      have h1 := f u' sid' id' hh
+      obtain ⟨l, hl', hs, _, _⟩ := heir_mem hh
+      have h2 := b l hl'
+      have hne : sid' ≠ sid := by
+        intro e; rw [hs, e] at h2; exact absurd (gen_unique a h2 hl) (by simp)
+      simp; exact ⟨h1, Or.inr hne⟩
     · intro r hr q hq h1 h2
       simp at hr hq
-      exact i r hr.1 q hq.1 h1 h2
+      exact g r hr.1 q hq.1 h1 h2
     · intro sid' u'
-      have := k sid' u'
+      have := j sid' u'
       simp
       grind
   · exact h
 
 theorem invS_close (s : Server) (sid : Nat) (h : InvS s) : InvS (close s sid) := by
-  obtain ⟨a, b, c, d, e, f, g, i, j, k⟩ := h
+  obtain ⟨a, b, c, d, e, f, g, i, j⟩ := h
   unfold close
-  refine ⟨?_, ?_, ?_, ?_, ?_, ?_, ?_, ?_, j.filter _, ?_⟩
+  have hheir : ∀ sid' gr, sid' ≠ sid → heir (s.listens.filter (fun l => l.sid != sid)) sid' gr = heir s.listens sid' gr := by
+    intro sid' gr hne
+    apply heir_filter_other
+    intro l _ hs; simp [hs, hne]
+  have hnone : ∀ gr, heir (s.listens.filter (fun l => l.sid != sid)) sid gr = none := by
+    intro gr
+    cases hh : heir (s.listens.filter (fun l => l.sid != sid)) sid gr with
+    | none => rfl
+    | some x =>
+      obtain ⟨l, hl, hs, _, _⟩ := heir_mem hh
+      simp at hl
+      exact absurd hs hl.2
+  refine ⟨?_, ?_, ?_, ?_, ?_, ?_, ?_, i.filter _, ?_⟩
   · have : (s.sessions.filter (fun p => p.1 != sid)).map Prod.fst = (s.sessions.map Prod.fst).filter (fun x => x != sid) := by
       rw [List.filter_map]; rfl
     simp only [this]; exact a.filter _
-  · intro t p hp
-    simp at hp
-    obtain ⟨l, hl, h1, h2, h3⟩ := b t p hp.1
-    exact ⟨l, by simp; exact ⟨hl, by rw [h1]; exact hp.2⟩, h1, h2, h3⟩
-  · intro l hl; simp at hl ⊢; exact ⟨c l hl.1, hl.2⟩
-  · intro l hl x hx; simp at hl ⊢; exact ⟨d l hl.1 x hx, hl.2⟩
-  · intro l hl x hx; simp at hl ⊢; exact ⟨e l hl.1 x hx, hl.2⟩
-  · intro l hl l' hl'; simp at hl hl'; exact f l hl.1 l' hl'.1
+  · intro l hl; simp at hl ⊢; exact ⟨b l hl.1, hl.2⟩
+  · intro l hl l' hl'; simp at hl hl'; exact c l hl.1 l' hl'.1
+  · intro t sid' id
+    simp only []
+    by_cases hs : sid' = sid
+    · subst hs; rw [hnone]; simp
+    · rw [hheir _ _ hs, ← d t sid' id]; simp [hs]
   · intro r hr
     simp at hr
-    rcases g r hr.1 with g | g
-    · left; simp; exact ⟨g, hr.2⟩
-    · right; obtain ⟨g1, l, hl, h1, h2, h3⟩ := g
-      exact ⟨by simp; exact ⟨g1, hr.2⟩, l, by simp; exact ⟨hl, by rw [h1]; exact hr.2⟩, h1, h2, h3⟩
-  · intro r hr q hq; simp at hr hq; exact i r hr.1 q hq.1
+    rcases e r hr.1 with e | e
+    · left; simp; exact ⟨e, hr.2⟩
+    · right; refine ⟨by simp; exact ⟨e.1, hr.2⟩, ?_⟩
+      rw [hheir _ _ hr.2]; exact e.2
+  · intro u sid' id hh
+    simp only [] at hh
+    by_cases hs : sid' = sid
+    · subst hs; rw [hnone] at hh; cases hh
+    · rw [hheir _ _ hs] at hh
+      simp; exact ⟨f u sid' id hh, hs⟩
+  · intro r hr q hq; simp at hr hq; exact g r hr.1 q hq.1
   · intro sid' u'
-    have := k sid' u'
+    have := j sid' u'
     simp
     grind
 
@@ -186,60 +349,19 @@ theorem find?_spec {l : List Listen} {sid id : Nat} {x : Listen}
   simp at h2
   exact ⟨h1, h2.1, h2.2⟩
 
-theorem invS_listenEnd (s : Server) (sid id : Nat) (h : InvS s) : InvS (listenEnd s sid id) := by
-  unfold listenEnd
-  split
-  · exact h
-  · rename_i l hfind
-    obtain ⟨hl, hsid, hid⟩ := find?_spec hfind
-    obtain ⟨a, b, c, d, e, f, g, i, j, k⟩ := h
-    refine ⟨a, ?_, ?_, ?_, ?_, ?_, ?_, ?_, j.filter _, ?_⟩
-    · intro t p hp
-      simp at hp
-      obtain ⟨l0, hl0, h1, h2, h3⟩ := b t p hp.1
-      refine ⟨l0, ?_, h1, h2, h3⟩
-      simp; exact ⟨hl0, by grind⟩
-    · intro l' hl'; simp at hl'; exact c l' hl'.1
-    · intro l' hl' x hx; simp at hl' ⊢; exact ⟨d l' hl'.1 x hx, hl'.2⟩
-    · intro l' hl' x hx
-      simp at hl' ⊢
-      refine ⟨e l' hl'.1 x hx, ?_⟩
-      have := f l' hl'.1 l hl
-      grind
-    · intro l1 h1 l2 h2; simp at h1 h2; exact f l1 h1.1 l2 h2.1
-    · intro r hr
-      simp at hr
-      rcases g r hr.1 with g | g
-      · exact Or.inl g
-      · right
-        obtain ⟨g1, l0, hl0, h1, h2, h3⟩ := g
-        refine ⟨g1, l0, ?_, h1, h2, h3⟩
-        simp
-        refine ⟨hl0, ?_⟩
-        have := f l0 hl0 l hl
-        grind
-    · intro r hr q hq; simp at hr hq; exact i r hr.1 q hq.1
-    · intro sid' u'
-      have := k sid' u'
-      simp
-      grind
-
 theorem mem_put {l : List (Nat × Nat)} {sid id : Nat} {p : Nat × Nat} :
     p ∈ put l sid id ↔ (p ∈ l ∧ p.1 ≠ sid) ∨ p = (sid, id) := by
   simp [put]
 
-theorem listenOk_spec {s : Server} {sid id : Nat} {kinds : List Kind} {uris : List Nat}
-    (h : listenOk s sid id kinds uris = true) :
-    ∀ l ∈ s.listens, l.sid = sid → l.id ≠ id ∧ (∀ k ∈ kinds, k ∉ l.kinds) ∧ (∀ u ∈ uris, u ∉ l.uris) := by
-  intro l hl hs
+theorem listenOk_spec {s : Server} {sid id : Nat} (h : listenOk s sid id = true) :
+    ∀ l ∈ s.listens, ¬(l.sid = sid ∧ l.id = id) := by
+  intro l hl
   simp [listenOk] at h
   have := h l hl
-  simp [hs] at this
-  exact ⟨this.1.1, this.1.2, this.2⟩
-
-theorem any_listenTable (ak : List Kind) (t : Kind) :
-    ak.any (fun k => listenTable k == some t) = true ↔ t ∈ ak := by
-  simp [listenTable_diag]
+  intro hc
+  rcases this with h1 | h1
+  · exact h1 hc.1
+  · exact h1 hc.2
 
 theorem invS_listen (s : Server) (sid id : Nat) (kinds : List Kind) (uris : List Nat) (h : InvS s) :
     InvS (listen s sid id kinds uris) := by
@@ -248,127 +370,394 @@ theorem invS_listen (s : Server) (sid id : Nat) (kinds : List Kind) (uris : List
   · rename_i hguard
     obtain ⟨hm, hok, hnd, _⟩ := hguard
     have ok := listenOk_spec hok
-    obtain ⟨a, b, c, d, e, f, g, i, j, k⟩ := h
-    -- abbreviations
+    obtain ⟨a, b, c, d, e, f, g, i, j⟩ := h
     generalize hak : kinds.filter (gateListen s) = ak
     generalize hau : (if resSub s = true then uris else []) = au
-    have hak_sub : ∀ k ∈ ak, k ∈ kinds := by intro k hk; rw [← hak] at hk; exact (List.mem_filter.1 hk).1
-    have hau_sub : ∀ u ∈ au, u ∈ uris := by
-      intro u hu; rw [← hau] at hu; split at hu
-      · exact hu
-      · simp at hu
     have hau_nd : au.Nodup := by rw [← hau]; split; exact hnd; simp
-    -- no table entry / resource subscription of this session collides with what is being registered
-    have F1 : ∀ t ∈ ak, ∀ p ∈ (s.ks t).subs, p.1 ≠ sid := by
-      intro t ht p hp hs
-      obtain ⟨l0, hl0, h1, _, h3⟩ := b t p hp
-      exact (ok l0 hl0 (by rw [h1, hs])).2.1 t (hak_sub t ht) h3
-    have F2 : ∀ r ∈ s.rsubs, r.2.1 = sid → r.1 ∉ au := by
-      intro r hr hs hu
-      rcases g r hr with g | g
-      · rw [hs] at g; exact absurd (gen_unique a g hm) (by simp)
-      · obtain ⟨_, l0, hl0, h1, _, h3⟩ := g
-        exact (ok l0 hl0 (by rw [h1, hs])).2.2 r.1 (hau_sub _ hu) h3
     simp only []
-    have hsub : ∀ l0 ∈ s.listens, l0 ∈ s.listens ++ [(⟨sid, id, ak, au⟩ : Listen)] := by
-      intro l0 hl0; simp; exact Or.inl hl0
-    have hnew : (ak ≠ [] ∨ au ≠ []) → (⟨sid, id, ak, au⟩ : Listen) ∈ s.listens ++ [(⟨sid, id, ak, au⟩ : Listen)] := by
-      intro _; simp
-    have hmem : ∀ l0, l0 ∈ s.listens ++ [(⟨sid, id, ak, au⟩ : Listen)] →
-        l0 ∈ s.listens ∨ l0 = ⟨sid, id, ak, au⟩ := by
-      intro l0 hl0; simp at hl0; exact hl0
-    refine ⟨a, ?_, ?_, ?_, ?_, ?_, ?_, ?_, ?_, ?_⟩
-    · -- subs_listen
-      intro t p hp
-      simp only [any_listenTable] at hp
-      split at hp
-      · rename_i ht
-        rcases mem_put.1 hp with ⟨hp1, _⟩ | hp1
-        · obtain ⟨l0, hl0, h1, h2, h3⟩ := b t p hp1
-          exact ⟨l0, hsub l0 hl0, h1, h2, h3⟩
-        · subst hp1
-          exact ⟨_, hnew (Or.inl (by intro e; rw [e] at ht; simp at ht)), rfl, rfl, ht⟩
-      · obtain ⟨l0, hl0, h1, h2, h3⟩ := b t p hp
-        exact ⟨l0, hsub l0 hl0, h1, h2, h3⟩
+    generalize hn : (⟨sid, id, ak, au⟩ : Listen) = n
+    have hnsid : n.sid = sid := by rw [← hn]
+    have hnid : n.id = id := by rw [← hn]
+    have hnk : n.kinds = ak := by rw [← hn]
+    have hnu : n.uris = au := by rw [← hn]
+    have hgK : ∀ t, ak.any (fun k => listenTable k == some t) = grantsK t n := by
+      intro t; simp [grantsK, hnk]
+    have hgU : ∀ u, grantsU u n = true ↔ u ∈ au := by
+      intro u; rw [grantsU_iff, hnu]
+    refine ⟨a, ?_, ?_, ?_, ?_, ?_, ?_, ?_, ?_⟩
     · -- listen_modern
       intro l0 hl0
-      rcases hmem l0 hl0 with h0 | h0
-      · exact c l0 h0
-      · subst h0; exact hm
-    · -- listen_subs
-      intro l0 hl0 x hx
-      simp only [any_listenTable]
-      rcases hmem l0 hl0 with h0 | h0
-      · have hd := d l0 h0 x hx
-        split
-        · rename_i hx'
-          apply mem_put.2; left
-          refine ⟨hd, ?_⟩
-          intro hs
-          exact (ok l0 h0 hs).2.1 x (hak_sub x hx') hx
-        · exact hd
-      · subst h0
-        simp only [] at hx
-        simp only [hx, if_true]
-        exact mem_put.2 (Or.inr rfl)
-    · -- listen_rsubs
-      intro l0 hl0 x hx
-      rcases hmem l0 hl0 with h0 | h0
-      · have he := e l0 h0 x hx
-        simp
-        left
-        refine ⟨he, ?_⟩
-        by_cases hs : l0.sid = sid
-        · right; intro hx'; exact (ok l0 h0 hs).2.2 x (hau_sub x hx') hx
-        · left; exact hs
-      · subst h0
-        simp; right; exact hx
-    · -- listen_uniq
-      intro l1 h1 l2 h2 hs hc
-      rcases hmem l1 h1 with e1 | e1 <;> rcases hmem l2 h2 with e2 | e2
-      · exact f l1 e1 l2 e2 hs hc
-      · subst e2
-        have := ok l1 e1 hs
-        grind
-      · subst e1
-        have := ok l2 e2 hs.symm
-        grind
+      simp at hl0
+      rcases hl0 with h0 | h0
+      · subst h0; rw [hnsid]; exact hm
+      · exact b l0 h0
+    · -- listen_ids
+      intro l1 h1 l2 h2 hs hi
+      simp at h1 h2
+      rcases h1 with e1 | e1 <;> rcases h2 with e2 | e2
       · rw [e1, e2]
+      · exfalso; apply ok l2 e2; rw [← hs, ← hi, e1]; exact ⟨hnsid, hnid⟩
+      · exfalso; apply ok l1 e1; rw [hs, hi, e2]; exact ⟨hnsid, hnid⟩
+      · exact c l1 e1 l2 e2 hs hi
+    · -- subs_iff
+      intro t sid' id'
+      simp only []
+      rw [heir_cons, hgK, hnsid, hnid]
+      cases hg : grantsK t n with
+      | true =>
+        simp only [if_true]
+        rw [mem_put]
+        by_cases hs : sid' = sid
+        · subst hs; simp
+          constructor
+          · intro e; exact e.symm
+          · intro e; exact e.symm
+        · have hs' : ¬ sid = sid' := fun e => hs e.symm
+          simp [hs, hs']
+          exact d t sid' id'
+      | false =>
+        simp
+        exact d t sid' id'
     · -- rsubs_owner
       intro r hr
       simp at hr
       rcases hr with hr | ⟨u, hu, rfl⟩
-      · rcases g r hr.1 with g | g
-        · exact Or.inl g
-        · obtain ⟨g1, l0, hl0, q1, q2, q3⟩ := g
-          exact Or.inr ⟨g1, l0, hsub l0 hl0, q1, q2, q3⟩
+      · rcases e r hr.1 with e | e
+        · exact Or.inl e
+        · right
+          refine ⟨e.1, ?_⟩
+          rw [heir_cons, hnsid]
+          have : ¬(sid = r.2.1 ∧ grantsU r.1 n = true) := by
+            rintro ⟨h1, h2⟩
+            have := (hgU r.1).1 h2
+            rcases hr.2 with h3 | h3
+            · exact h3 h1.symm
+            · exact h3 this
+          simp only [this, if_false]
+          exact e.2
       · right
-        exact ⟨hm, _, hnew (Or.inr (by intro e; rw [e] at hu; simp at hu)), rfl, rfl, hu⟩
+        refine ⟨hm, ?_⟩
+        rw [heir_cons, hnsid, hnid]
+        simp [(hgU u).2 hu]
+    · -- listen_rsubs
+      intro u sid' id' hh
+      rw [heir_cons, hnsid, hnid] at hh
+      simp only []
+      rw [List.mem_append]
+      by_cases hc : sid = sid' ∧ grantsU u n = true
+      · simp only [hc, and_self, if_true] at hh
+        right
+        rw [List.mem_map]
+        refine ⟨u, (hgU u).1 hc.2, ?_⟩
+        cases hh; rw [hc.1]
+      · simp only [hc, if_false] at hh
+        left
+        rw [List.mem_filter]
+        refine ⟨f u sid' id' hh, ?_⟩
+        by_cases hs : sid' = sid
+        · have : ¬ u ∈ au := fun hu => hc ⟨hs.symm, (hgU u).2 hu⟩
+          simp [this]
+        · simp [hs]
     · -- rsubs_fun
       intro r hr q hq h1 h2
       simp at hr hq
       rcases hr with hr | ⟨u, hu, rfl⟩ <;> rcases hq with hq | ⟨u', hu', rfl⟩
-      · exact i r hr.1 q hq.1 h1 h2
-      · simp at h1 h2; have := F2 r hr.1 h2; grind
-      · simp at h1 h2; have := F2 q hq.1 h2.symm; grind
+      · exact g r hr.1 q hq.1 h1 h2
+      · simp at h1 h2; grind
+      · simp at h1 h2; grind
       · simp at h1; rw [h1]
     · -- rsubs_nodup
       rw [List.nodup_append]
-      refine ⟨j.filter _, ?_, ?_⟩
+      refine ⟨i.filter _, ?_, ?_⟩
       · exact List.Pairwise.map _ (fun x y hxy => by simpa using hxy) hau_nd
       · intro x hx y hy
         simp at hx hy
         obtain ⟨u, hu, rfl⟩ := hy
         intro e; subst e
-        have := F2 _ hx.1 rfl
-        exact this hu
+        simp at hx
+        exact hx.2 hu
     · -- rlive_iff
       intro sid' u'
-      have := k sid' u'
-      have F2' := F2
-      simp
-      grind
+      rw [j sid' u']
+      constructor
+      · rintro ⟨hleg, id', hid⟩
+        refine ⟨hleg, id', ?_⟩
+        simp; left
+        refine ⟨hid, Or.inl ?_⟩
+        intro e; rw [e] at hleg; exact absurd (gen_unique a hleg hm) (by simp)
+      · rintro ⟨hleg, id', hid⟩
+        refine ⟨hleg, id', ?_⟩
+        simp at hid
+        rcases hid with hid | ⟨_, _, _, e, _⟩
+        · exact hid.1
+        · have hleg' : (sid', Gen.legacy) ∈ s.sessions := hleg
+          rw [← e] at hleg'; exact absurd (gen_unique a hleg' hm) (by simp)
   · exact h
+
+/-- Dropping streams that were granted nothing of the kind changes no heir. -/
+theorem heir_filter_irrelevant {ls : List Listen} {sid' : Nat} {g q : Listen → Bool}
+    (hq : ∀ l ∈ ls, q l = false → g l = false) : heir (ls.filter q) sid' g = heir ls sid' g := by
+  simp only [heir, List.find?_filter]
+  congr 1
+  apply find?_congr'
+  intro a ha
+  cases hqa : q a with
+  | true => by_cases e : a.sid = sid' <;> simp [e]
+  | false => simp [hq a ha hqa]
+
+/-- **Hand-over.**  After the stream `(sid, id)` is dropped, the newest stream of a session that was
+granted the thing is the one it was before, unless that was the dropped stream: then it is the newest
+of the remaining ones. -/
+theorem heir_drop {ls : List Listen} {sid id sid' id' : Nat} {g : Listen → Bool} :
+    heir (ls.filter (fun l' => !(l'.sid == sid && l'.id == id))) sid' g = some id' ↔
+      (heir ls sid' g = some id' ∧ ¬(sid' = sid ∧ id' = id)) ∨
+      (sid' = sid ∧ heir ls sid g = some id ∧
+        heir (ls.filter (fun l' => !(l'.sid == sid && l'.id == id))) sid g = some id') := by
+  constructor
+  · intro hh
+    obtain ⟨b, hb, hbid⟩ := heir_some.1 hh
+    obtain ⟨hbm, hqb, hpb⟩ := find?_filter_props hb
+    obtain ⟨b0, hb0, himp⟩ := find?_filter_sub hb
+    simp at hqb hpb
+    cases hq0 : (!(b0.sid == sid && b0.id == id)) with
+    | true =>
+      have := himp hq0
+      subst this
+      left
+      refine ⟨heir_some.2 ⟨b0, hb0, hbid⟩, ?_⟩
+      rintro ⟨e1, e2⟩
+      rcases hqb with hqb | hqb
+      · apply hqb; rw [hpb.1, e1]
+      · apply hqb; rw [hbid, e2]
+    | false =>
+      simp at hq0
+      have hp0 := List.find?_some hb0
+      simp at hp0
+      have e : sid' = sid := by rw [← hp0.1, hq0.1]
+      right
+      subst e
+      exact ⟨rfl, heir_some.2 ⟨b0, hb0, hq0.2⟩, hh⟩
+  · rintro (⟨hh, hne⟩ | ⟨rfl, _, hh⟩)
+    · obtain ⟨b0, hb0, hbid⟩ := heir_some.1 hh
+      have hp0 := List.find?_some hb0
+      simp at hp0
+      apply heir_some.2
+      refine ⟨b0, find?_filter_keep hb0 ?_, hbid⟩
+      simp
+      by_cases e1 : b0.sid = sid
+      · right; intro e2; apply hne
+        exact ⟨by rw [← hp0.1, e1], by rw [← hbid, e2]⟩
+      · exact Or.inl e1
+    · exact hh
+
+theorem nodup_filterMap_of_inj_on {α β} {l : List α} {f : α → Option β} (hnd : l.Nodup)
+    (hinj : ∀ a ∈ l, ∀ a' ∈ l, ∀ b, f a = some b → f a' = some b → a = a') : (l.filterMap f).Nodup := by
+  induction l with
+  | nil => simp
+  | cons a t ih =>
+    simp only [List.nodup_cons] at hnd
+    have iht := ih hnd.2 (fun x hx y hy => hinj x (List.mem_cons_of_mem _ hx) y (List.mem_cons_of_mem _ hy))
+    cases hfa : f a with
+    | none => simp [hfa]; exact iht
+    | some b =>
+      simp only [List.filterMap_cons, hfa, List.nodup_cons]
+      refine ⟨?_, iht⟩
+      intro hb
+      obtain ⟨a', ha', hfa'⟩ := List.mem_filterMap.1 hb
+      have := hinj a (List.mem_cons_self) a' (List.mem_cons_of_mem _ ha') b hfa hfa'
+      rw [this] at hnd
+      exact hnd.1 ha'
+
+theorem invS_listenEnd (s : Server) (sid id : Nat) (h : InvS s) : InvS (listenEnd s sid id) := by
+  unfold listenEnd
+  split
+  · exact h
+  · rename_i l hfind
+    obtain ⟨hl, hsid, hid⟩ := find?_spec hfind
+    obtain ⟨a, b, c, d, e, f, g, i, j⟩ := h
+    have hmod : (sid, Gen.modern) ∈ s.sessions := by rw [← hsid]; exact b l hl
+    -- the stream that ends is the only one with its id
+    have only : ∀ u, heir s.listens sid (grantsU u) = some id → u ∈ l.uris := by
+      intro u hh
+      obtain ⟨l0, hl0, h1, h2, h3⟩ := heir_mem hh
+      have := c l0 hl0 l hl (by rw [h1, hsid]) (by rw [h2, hid])
+      rw [← this]; exact (grantsU_iff u l0).1 h3
+    simp only []
+    generalize hrest : s.listens.filter (fun l' => !(l'.sid == sid && l'.id == id)) = rest
+    have hsub : ∀ x ∈ rest, x ∈ s.listens := by
+      intro x hx; rw [← hrest] at hx; exact (List.mem_filter.1 hx).1
+    -- what the rewritten resource table contains
+    have hG : ∀ r', r' ∈ s.rsubs.filterMap (fun r =>
+          if (r.2.1 == sid && r.2.2 == id && l.uris.contains r.1) = true then
+            (heir rest sid (grantsU r.1)).map (fun h => (r.1, sid, h))
+          else some r) ↔
+        (r' ∈ s.rsubs ∧ ¬(r'.2.1 = sid ∧ r'.2.2 = id ∧ r'.1 ∈ l.uris)) ∨
+        (r'.2.1 = sid ∧ (r'.1, sid, id) ∈ s.rsubs ∧ r'.1 ∈ l.uris ∧ heir rest sid (grantsU r'.1) = some r'.2.2) := by
+      intro r'
+      rw [List.mem_filterMap]
+      constructor
+      · rintro ⟨r, hr, hGr⟩
+        split at hGr
+        · rename_i hc
+          simp at hc
+          cases hh : heir rest sid (grantsU r.1) with
+          | none => rw [hh] at hGr; simp at hGr
+          | some x =>
+            rw [hh] at hGr; simp at hGr
+            subst hGr
+            right
+            obtain ⟨r1, r2, r3⟩ := r
+            simp at hc hh ⊢
+            obtain ⟨⟨rfl, rfl⟩, hc3⟩ := hc
+            exact ⟨hr, hc3, hh⟩
+        · rename_i hc
+          simp at hc hGr
+          subst hGr
+          left
+          refine ⟨hr, ?_⟩
+          rintro ⟨h1, h2, h3⟩
+          exact hc h1 h2 h3
+      · rintro (⟨hr, hc⟩ | ⟨h1, hr, h3, h4⟩)
+        · refine ⟨r', hr, ?_⟩
+          have : ¬((r'.2.1 == sid && r'.2.2 == id && l.uris.contains r'.1) = true) := by
+            simp; intro x y z; exact hc ⟨x, y, z⟩
+          rw [if_neg this]
+        · refine ⟨(r'.1, sid, id), hr, ?_⟩
+          have : (((r'.1, sid, id) : Nat × Nat × Nat).2.1 == sid && ((r'.1, sid, id) : Nat × Nat × Nat).2.2 == id && l.uris.contains ((r'.1, sid, id) : Nat × Nat × Nat).1) = true := by
+            simp; exact h3
+          rw [if_pos this]
+          show (heir rest sid (grantsU r'.1)).map (fun h => (r'.1, sid, h)) = some r'
+          rw [h4]
+          obtain ⟨r1, r2, r3⟩ := r'
+          simp at h1 ⊢
+          exact h1.symm
+    refine ⟨a, ?_, ?_, ?_, ?_, ?_, ?_, ?_, ?_⟩
+    · intro l' hl'; exact b l' (hsub l' hl')
+    · intro l1 h1 l2 h2; exact c l1 (hsub l1 h1) l2 (hsub l2 h2)
+    · -- subs_iff
+      intro t sid' id'
+      rw [← hrest, heir_drop, hrest, List.mem_filterMap]
+      constructor
+      · rintro ⟨p, hp, hF⟩
+        split at hF
+        · rename_i hc
+          simp at hc
+          cases hh : heir rest sid (grantsK t) with
+          | none => rw [hh] at hF; simp at hF
+          | some x =>
+            rw [hh] at hF; simp at hF
+            obtain ⟨rfl, rfl⟩ := hF
+            right
+            refine ⟨rfl, ?_, ?_⟩
+            · have := (d t p.1 p.2).1 hp
+              rw [hc.1, hc.2] at this; exact this
+            · first | exact hh | rfl
+        · rename_i hc
+          simp at hc hF
+          subst hF
+          left
+          exact ⟨(d t sid' id').1 hp, fun hx => hc hx.1 hx.2⟩
+      · rintro (⟨hh, hne⟩ | ⟨rfl, hh, hr⟩)
+        · refine ⟨(sid', id'), (d t sid' id').2 hh, ?_⟩
+          have : ¬(((sid', id') : Nat × Nat).1 == sid && ((sid', id') : Nat × Nat).2 == id) = true := by
+            simp; intro x y; exact hne ⟨x, y⟩
+          rw [if_neg this]
+        · refine ⟨(sid', id), (d t sid' id).2 hh, ?_⟩
+          simp [hr]
+    · -- rsubs_owner
+      intro r' hr'
+      rcases (hG r').1 hr' with ⟨hr, hc⟩ | ⟨h1, _, _, h4⟩
+      · rcases e r' hr with e | e
+        · exact Or.inl e
+        · right
+          refine ⟨e.1, ?_⟩
+          rw [← hrest, heir_drop]
+          left
+          refine ⟨e.2, ?_⟩
+          rintro ⟨x, y⟩
+          apply hc
+          refine ⟨x, y, only r'.1 ?_⟩
+          rw [← x, ← y]; exact e.2
+      · right
+        rw [h1]
+        exact ⟨hmod, h4⟩
+    · -- listen_rsubs
+      intro u sid' id' hh
+      rw [← hrest, heir_drop, hrest] at hh
+      apply (hG (u, sid', id')).2
+      rcases hh with ⟨hh, hne⟩ | ⟨rfl, hh, hr⟩
+      · left
+        exact ⟨f u sid' id' hh, fun hx => hne ⟨hx.1, hx.2.1⟩⟩
+      · right
+        exact ⟨rfl, f u sid' id hh, only u hh, hr⟩
+    · -- rsubs_fun
+      have key : ∀ r', r' ∈ s.rsubs.filterMap (fun r =>
+          if (r.2.1 == sid && r.2.2 == id && l.uris.contains r.1) = true then
+            (heir rest sid (grantsU r.1)).map (fun h => (r.1, sid, h))
+          else some r) → ∃ x, (r'.1, r'.2.1, x) ∈ s.rsubs ∧
+            (¬(r'.2.1 = sid ∧ x = id ∧ r'.1 ∈ l.uris) → x = r'.2.2) ∧
+            ((r'.2.1 = sid ∧ x = id ∧ r'.1 ∈ l.uris) → heir rest sid (grantsU r'.1) = some r'.2.2) := by
+        intro r' hr'
+        rcases (hG r').1 hr' with ⟨hr, hc⟩ | ⟨h1, hr, h3, h4⟩
+        · exact ⟨r'.2.2, hr, fun _ => rfl, fun hx => absurd hx hc⟩
+        · refine ⟨id, by rw [h1]; exact hr, fun hx => absurd ⟨h1, rfl, h3⟩ hx, fun _ => h4⟩
+      intro r1 hr1 r2 hr2 e1 e2
+      obtain ⟨x1, m1, n1, k1⟩ := key r1 hr1
+      obtain ⟨x2, m2, n2, k2⟩ := key r2 hr2
+      have hx := g _ m1 _ m2 e1 e2
+      simp at hx
+      obtain ⟨_, _, hx⟩ := hx
+      subst hx
+      obtain ⟨a1, b1, c1⟩ := r1
+      obtain ⟨a2, b2, c2⟩ := r2
+      simp at e1 e2 n1 n2 k1 k2 ⊢
+      subst e1 e2
+      refine ⟨rfl, rfl, ?_⟩
+      by_cases hc : b1 = sid ∧ x1 = id ∧ a1 ∈ l.uris
+      · have p1 := k1 hc.1 hc.2.1 hc.2.2
+        have p2 := k2 hc.1 hc.2.1 hc.2.2
+        rw [p1] at p2; exact Option.some.inj p2
+      · have p1 := n1 (fun x y z => hc ⟨x, y, z⟩)
+        have p2 := n2 (fun x y z => hc ⟨x, y, z⟩)
+        rw [← p1, ← p2]
+    · -- rsubs_nodup
+      apply nodup_filterMap_of_inj_on i
+      intro r1 hr1 r2 hr2 b' h1 h2
+      apply g r1 hr1 r2 hr2
+      · split at h1 <;> split at h2
+        · cases hh : heir rest sid (grantsU r1.1) <;> rw [hh] at h1 <;> simp at h1
+          cases hh2 : heir rest sid (grantsU r2.1) <;> rw [hh2] at h2 <;> simp at h2
+          rw [← h1] at h2; simp at h2; exact h2.1.symm
+        · cases hh : heir rest sid (grantsU r1.1) <;> rw [hh] at h1 <;> simp at h1
+          simp at h2; rw [← h1] at h2; rw [h2]
+        · cases hh2 : heir rest sid (grantsU r2.1) <;> rw [hh2] at h2 <;> simp at h2
+          simp at h1; rw [← h2] at h1; rw [h1]
+        · simp at h1 h2; rw [h1, h2]
+      · split at h1 <;> split at h2
+        · rename_i c1 c2; simp at c1 c2; rw [c1.1.1, c2.1.1]
+        · rename_i c1 c2; simp at c1
+          cases hh : heir rest sid (grantsU r1.1) <;> rw [hh] at h1 <;> simp at h1
+          simp at h2; rw [← h1] at h2; rw [h2, c1.1.1]
+        · rename_i c1 c2; simp at c2
+          cases hh2 : heir rest sid (grantsU r2.1) <;> rw [hh2] at h2 <;> simp at h2
+          simp at h1; rw [← h2] at h1; rw [h1, c2.1.1]
+        · simp at h1 h2; rw [h1, h2]
+    · -- rlive_iff
+      intro sid' u'
+      rw [j sid' u']
+      constructor
+      · rintro ⟨hleg, id', hid⟩
+        refine ⟨hleg, id', (hG (u', sid', id')).2 (Or.inl ⟨hid, ?_⟩)⟩
+        rintro ⟨x, _⟩
+        simp at x
+        rw [x] at hleg; exact absurd (gen_unique a hleg hmod) (by simp)
+      · rintro ⟨hleg, id', hid⟩
+        refine ⟨hleg, id', ?_⟩
+        rcases (hG (u', sid', id')).1 hid with ⟨hr, _⟩ | ⟨x, _⟩
+        · exact hr
+        · simp at x
+          have hleg' : (sid', Gen.legacy) ∈ s.sessions := hleg
+          rw [x] at hleg'; exact absurd (gen_unique a hleg' hmod) (by simp)
 
 /-- The acknowledgement touches no table; a handler that was granted nothing leaves the record. -/
 theorem invS_listenAck (s : Server) (sid id : Nat) (h : InvS s) : InvS (listenAck s sid id).1 := by
@@ -381,36 +770,30 @@ theorem invS_listenAck (s : Server) (sid id : Nat) (h : InvS s) : InvS (listenAc
     · exact h
     · split
       · rename_i hempty
-        obtain ⟨a, b, c, d, e, f, g, i, j, k⟩ := h
-        -- a record that mentions a kind or a URI is not the one that leaves
-        have keep : ∀ l0 ∈ s.listens, (l0.kinds ≠ [] ∨ l0.uris ≠ []) →
-            l0 ∈ s.listens.filter (fun l' => !(l'.sid == sid && l'.id == id)) := by
-          intro l0 hl0 hne
-          simp
-          refine ⟨hl0, ?_⟩
-          by_cases h1 : l0.sid = sid
-          · right
-            intro h2
-            have := f l0 hl0 l hl (by rw [h1, hsid]) (Or.inl (by rw [h2, hid]))
-            rw [this] at hne
-            rcases hne with hne | hne
-            · exact hne hempty.1
-            · exact hne hempty.2
-          · exact Or.inl h1
-        refine ⟨a, ?_, ?_, ?_, ?_, ?_, ?_, i, j, k⟩
-        · intro t p hp
-          obtain ⟨l0, hl0, h1, h2, h3⟩ := b t p hp
-          exact ⟨l0, keep l0 hl0 (Or.inl (by intro e; rw [e] at h3; simp at h3)), h1, h2, h3⟩
-        · intro l' hl'; simp at hl'; exact c l' hl'.1
-        · intro l' hl' x hx; simp at hl'; exact d l' hl'.1 x hx
-        · intro l' hl' x hx; simp at hl'; exact e l' hl'.1 x hx
-        · intro l1 h1 l2 h2; simp at h1 h2; exact f l1 h1.1 l2 h2.1
+        obtain ⟨a, b, c, d, e, f, g, i, j⟩ := h
+        -- the record that leaves was granted nothing: no heir changes
+        have irr : ∀ sid' (gr : Listen → Bool), (∀ x : Listen, x.kinds = [] → x.uris = [] → gr x = false) →
+            heir (s.listens.filter (fun l' => !(l'.sid == sid && l'.id == id))) sid' gr = heir s.listens sid' gr := by
+          intro sid' gr hgr
+          apply heir_filter_irrelevant
+          intro x hx hq
+          simp at hq
+          have := c x hx l hl (by rw [hq.1, hsid]) (by rw [hq.2, hid])
+          rw [this]
+          exact hgr l hempty.1 hempty.2
+        have irrK : ∀ t (x : Listen), x.kinds = [] → x.uris = [] → grantsK t x = false := by
+          intro t x hk _; simp [grantsK, hk]
+        have irrU : ∀ u (x : Listen), x.kinds = [] → x.uris = [] → grantsU u x = false := by
+          intro u x _ hu; simp [grantsU, hu]
+        refine ⟨a, ?_, ?_, ?_, ?_, ?_, g, i, j⟩
+        · intro l' hl'; simp at hl'; exact b l' hl'.1
+        · intro l1 h1 l2 h2; simp at h1 h2; exact c l1 h1.1 l2 h2.1
+        · intro t sid' id'; simp only []; rw [irr sid' _ (irrK t)]; exact d t sid' id'
         · intro r hr
-          rcases g r hr with g | g
-          · exact Or.inl g
-          · right
-            obtain ⟨g1, l0, hl0, h1, h2, h3⟩ := g
-            exact ⟨g1, l0, keep l0 hl0 (Or.inr (by intro e; rw [e] at h3; simp at h3)), h1, h2, h3⟩
+          rcases e r hr with e | e
+          · exact Or.inl e
+          · right; refine ⟨e.1, ?_⟩; simp only []; rw [irr _ _ (irrU r.1)]; exact e.2
+        · intro u sid' id' hh; simp only [] at hh; rw [irr _ _ (irrU u)] at hh; exact f u sid' id' hh
       · exact h.frame rfl (fun _ => rfl) rfl rfl rfl
 
 theorem invS_setK {s : Server} (k : Kind) (f : KState → KState) (hf : ∀ st, (f st).subs = st.subs)
@@ -550,7 +933,7 @@ theorem invA_step (s : Server) (l : Label) (h : InvA s) : InvA (step s l).1 := b
     split
     · intro p hp
       obtain ⟨l0, hl0, h1⟩ := h p hp
-      exact ⟨l0, by simp; exact Or.inl hl0, h1⟩
+      exact ⟨l0, by simp; exact Or.inr hl0, h1⟩
     · exact h
   | listenAck sid id =>
     simp only [step, listenAck]
